@@ -45,6 +45,17 @@ THEOREMS = [
     "C17_xf_list_sorted_witness",
     "C17_class_per_definition_repaired",
     "C17_class_per_definition_witness",
+    "C17_scrape_own_return",
+    "C17_scrape_text",
+    "C17_scrape_nested_witness",
+    "C17_scrape_bytecols_witness",
+    "C17_labels_from_source",
+    "C17_inputs_kinds",
+    "C17_bind_kinds",
+    "C17_run_kinds_partial",
+    "C17_run_kinds_repaired",
+    "C17_run_kinds_witness",
+    "C17_variadic_witness",
 ]
 RULE = (
     "generated definitions written to REAL source files in the case's cwd and imported from there (inspect/ast "
@@ -70,18 +81,26 @@ RULE = (
     "(k0..k99, shuffled or not) 10..100, tables of 10..101 rows, dataclasses with 10..21 (thorough 100) fields x1..xN, "
     "functions with 10..21 (30) parameters x1..xN, positional/keyword splits on both sides of position 10 and keywords "
     "written in reverse or shuffled order; CLASS REGISTRY: a dictionary specification preceded by another one of equal "
-    "hash (-1/-2, 1/True, 0/False), a dataclass preceded by another one of the same __name__; non-trivial = at least one "
-    "run returned a value"
+    "hash (-1/-2, 1/True, 0/False), a dataclass preceded by another one of the same __name__; BODY STRUCTURE: the return "
+    "statement 0-3 compound statements deep (if / else / elif / for / while / try-finally / except / try-else / with), "
+    "next to docstrings and comments mentioning return, lambdas, helper functions without and with return statements "
+    "(one value, a tuple, two returns), an async helper, a class with a method, a decorated helper, a helper two "
+    "compound statements deep, a non-ASCII literal on the line of the return; PARAMETER KINDS: positional-only prefix, "
+    "keyword-only suffix, `*var` / `**var` under reserved and unreserved names; non-trivial = at least one run returned "
+    "a value"
 )
 TRUSTED = [
     "model FuncWrap transcribes ScrapesIO._build_inputs_preview/_build_outputs_preview/_validate*, "
     "ParseOutput.get_parsed_output, Function._build_outputs_preview, StaticNode._setup_node, HasIO.set_input_values, the "
     "readiness gate, Function.process_run_result/_outputs_to_run_return and the transformer/dataclass bodies for data "
     "values (validated on the explored cases only)",
-    "what python's inspect/ast/typing make of the source TEXT (parameter list, evaluated annotations, the return "
-    "statements as an ast.Tuple of element texts or one expression text, typing.get_args of the return annotation) is "
-    "an INPUT of the model, computed by the harness from the generator's own description of the source it wrote, "
-    "independently of the library; that the library reads the same off the real file is checked differentially only",
+    "python's `ast.parse` (the tree and the positions of its nodes) is trusted; the harness converts the tree of the "
+    "generated node function (ast_lines: statement skeleton, scope flags, spans of the returned values, source lines as "
+    "code points) into the model's term -- the one trusted step between the source file and the model; everything "
+    "ParseOutput does with them is modelled (Model/PyAst.lean) and proved",
+    "what inspect.signature(eval_str=True) / typing.get_args make of annotations (parameter list with kinds, evaluated "
+    "annotations, get_args of the return annotation) is an INPUT of the model, computed by the harness by plain eval, "
+    "independently of the library",
     "the reference binding in the oracle is Python's own inspect.Signature.bind_partial + calling the bare twin function",
     "which of the Cfg variants (dataclass re-cast, cached transformer return, dictionary class by hash, dataclass node "
     "class by name) the tree shows is decided by four fixed probes of the tree, not by the case under test",
@@ -92,8 +111,10 @@ TRUSTED = [
     "on the implementation and fed to the model as `regkey`; the defining objects are numbered by the harness",
 ]
 ASSUMPTIONS = [
-    "parameters are positional-or-keyword (no *args/**kwargs/positional-only/keyword-only); supplied values and "
-    "defaults conform to the annotations and are never NOT_DATA; the source of the function is available",
+    "supplied values and defaults conform to the annotations and are never NOT_DATA; the source of the function is "
+    "available; node functions do not use `self`; on definitions with a variadic parameter (documented as unsupported) "
+    "the oracle makes no demand and `**var` is never given a value; a split python refuses ONLY because of a parameter's "
+    "kind is not demanded to be refused by the node; white space in return expressions is ASCII",
     "values are not mutated (a shared mutable default is the same object in every instance and in the bare function, "
     "which is what is checked; what mutation would then do is Python's business); the wrapped function is deterministic",
     "'with the parameter's default' is read as: the input channel (class-level preview, instance `default`, initial "
@@ -299,6 +320,19 @@ def _mk_args(rng, ctr, params, p, keys):
 
 
 def gen_run(rng, ctr, params, again_p=0.3):
+    if any(q.get("kind") in ("vp", "vk") for q in params):
+        # a definition with a variadic: values for the ordinary parameters in front of it only (now and then one for `*var`)
+        cut = next(i for i, q in enumerate(params) if q.get("kind") in ("vp", "vk"))
+        run = gen_run(rng, ctr, params[:cut], again_p=0.0)
+        if any(q.get("kind") == "vk" for q in params):
+            # `**var` is never given a value (what python does with `f(**{"var": v, …})` is outside the model): no
+            # positional overflow into the variadic inputs
+            nfree = cut
+            run["inst"][0] = run["inst"][0][:nfree]
+            run["call"][0] = run["call"][0][:nfree]
+        if params[cut]["kind"] == "vp" and not any(q.get("kind") == "vk" for q in params) and rng.random() < 0.3:
+            run["call"][1][params[cut]["name"]] = "tuple(i7)"
+        return run
     n = len(params)
     names = [q["name"] for q in params]
     if n >= 10:
@@ -396,7 +430,7 @@ def gen_fn_case(rng, tier, idx, n=None, exhaustive=False):
            if is_pool(q.get("default")) and q["default"].split(".", 1)[1] in IDENTITY_KINDS]
     if n >= 1 and not exhaustive and rng.random() < 0.02:
         # a parameter named like a keyword of Node.__init__: the definition is refused
-        params[rng.randrange(n)]["name"] = rng.choice(["label", "parent", "autorun", "args", "kwargs", "checkpoint"])
+        params[rng.randrange(n)]["name"] = rng.choice(["label", "parent", "autorun", "args", "kwargs", "checkpoint", "self"])
     nret = rng.choice([0, 1, 1, 1, 2, 2, 3, 4])
     rets = []  # [spec, source text, pre-statement, hint]
     used = set()
@@ -496,11 +530,42 @@ def gen_fn_case(rng, tier, idx, n=None, exhaustive=False):
         api = "dec"
     if not validate and api in ("dec", "dec_call"):
         api = "dec_labels"
+    # --- how the body is built around the return statement, and what else stands in it
+    wrap, extras, nonascii = [], [], False
+    if layout != "two_returns":
+        depth = rng.choice([0, 0, 0, 1, 1, 2, 3])
+        wrap = [rng.choice(WRAPS) for _ in range(depth)]
+    if rng.random() < 0.3:
+        extras = rng.sample(sorted(EXTRAS), rng.choice([1, 1, 2, 3]))
+    if layout in ("line", "one_tuple") and ret_style == "values" and not single_tuple and not any(EXTRAS[x][1] for x in extras) \
+            and rng.random() < 0.06:
+        nonascii = True
+    # --- parameter kinds: positional-only prefix, keyword-only suffix, now and then a variadic
+    if n and not exhaustive and rng.random() < 0.22:
+        npo = rng.choice([0, 0, 1, 1, 2, n])
+        nko = rng.choice([0, 1, 1, 2, n])
+        npo = min(npo, n)
+        variadic = rng.random() < 0.2
+        nko = 0 if variadic else min(nko, n - npo)
+        for i, q in enumerate(params):
+            q["kind"] = "po" if i < npo else ("ko" if i >= n - nko else "pk")
+        if variadic:
+            # a variadic (documented as unsupported), after the ordinary parameters (the body does not use it)
+            both = rng.random()
+            taken = {q["name"] for q in params}
+            if both < 0.7:
+                params.append({"name": rng.choice([x for x in ["rest", "args", "more_values"] if x not in taken]),
+                               "ann": None, "default": None, "kind": "vp"})
+            if both > 0.4:
+                params.append({"name": rng.choice([x for x in ["more", "kwargs", "options"] if x not in taken]),
+                               "ann": None, "default": None, "kind": "vk"})
+            n = len(params)
     case = {
         "kind": "fn", "id": f"{tier[0]}{idx}", "params": params,
         "rets": [[r[0], r[1], r[2]] for r in rets], "single_tuple": single_tuple, "ret_style": ret_style,
         "declared": declared, "validate": validate, "ret_ann": ret_ann,
         "future": rng.random() < 0.4, "api": api, "layout": layout,
+        "wrap": wrap, "extras": extras, "nonascii": nonascii,
     }
     ctr = _Ctr()
     if exhaustive:
@@ -694,7 +759,7 @@ def gen_cases(rng, tier):
                      "def list 1", "inst 1 tuple(i1", "call 0 =", "inst 0", "call 1 i1 item_0", "call 2 i1",
                      "retstmt bare", "def fn 2 - t0", "def fn 1 - t0", "retann - x", "retelt x", "param a -", "io",
                      "retstmt frob", "show",
-                     "cfg 0 0", "cfg 0 0 0 2", "regkey D", "regkey D x", "def fn 1 - I0", "def fn 1 - I0:x",
+                     "cfg 0 0", "cfg 0 0 0 0 0 0 0 2", "regkey D", "regkey D x", "def fn 1 - I0", "def fn 1 - I0:x",
                      "def list 1", "inst 1 @7", "inst 1 @x.marker", "inst 1 @7.", "inst 1 @7.marker"],
            "expect": ["bad-op"] * 7 + ["def ok ins=[item_0:-=ND] outs=[list:builtins.list]", "bad-op", "bad-op",
                                        "inst ok ins=[item_0=ND]", "bad-op", "bad-op"]
@@ -744,6 +809,21 @@ def corpus():
                      "call": [[], {f"item_{i}": f"sv{i}" for i in reversed(range(5, 12))}]}]}
     yield {"kind": "unpack", "id": "c-u1", "n": 11, "api": "class",
            "runs": [{"inst": [[], {}], "call": [["list(" + ",".join(f"i{i}" for i in range(11)) + ")"], {}]}]}
+    # what ParseOutput reads off the source: a non-ASCII character on the line of the return statement, a helper function
+    # with its own return statement, a positional-only parameter (KF-C17-6/7/8)
+    yield {"kind": "fn", "id": "c-f3", "params": [{"name": "a", "ann": None, "default": None}, {"name": "b", "ann": None, "default": None}], "rets": [["p0", "a", None], ["p1", "b", None]], "single_tuple": False, "ret_style": "values", "declared": None, "validate": True, "ret_ann": None, "future": False, "api": "dec", "layout": "line", "wrap": [], "extras": [], "nonascii": True, "runs": [{"inst": [[], {}], "call": [["i1", "i2"], {}]}]}
+    yield {"kind": "fn", "id": "c-f4", "params": [{"name": "a", "ann": None, "default": None}], "rets": [], "single_tuple": False, "ret_style": "none", "declared": None, "validate": True, "ret_ann": None, "future": False, "api": "dec", "layout": "line", "wrap": [], "extras": ["nested_ret_tuple"], "nonascii": False, "runs": [{"inst": [[], {}], "call": [["i1"], {}]}]}
+    yield {"kind": "fn", "id": "c-f5", "params": [{"name": "a", "ann": None, "default": None, "kind": "po"}, {"name": "b", "ann": None, "default": None, "kind": "pk"}], "rets": [["t0", "r0", "r0 = _T(0, a, b)"]], "single_tuple": False, "ret_style": "values", "declared": None, "validate": True, "ret_ann": None, "future": False, "api": "dec", "layout": "line", "wrap": [], "extras": [], "nonascii": False, "runs": [{"inst": [[], {}], "call": [["i1", "i2"], {}]}]}
+    # the function's only return three compound statements deep, next to a lambda, a docstring and a helper without return
+    yield {"kind": "fn", "id": "c-f6", "params": [{"name": "a", "ann": None, "default": None},
+                                                   {"name": "b", "ann": "int", "default": "i7", "kind": "pk"},
+                                                   {"name": "c", "ann": None, "default": "i3", "kind": "ko"}],
+           "rets": [["t0", "r0", "r0 = _T(0, a, b, c)"], ["p1", "b", None]], "single_tuple": False,
+           "ret_style": "values", "declared": None, "validate": True, "ret_ann": None, "future": False,
+           "api": "dec", "layout": "multiline", "wrap": ["try", "for", "else"],
+           "extras": ["docstring", "lambda", "nested_noret", "comment"], "nonascii": False,
+           "runs": [{"inst": [["sx"], {}], "call": [[], {"c": "i9"}]},
+                    {"inst": [[], {}], "call": [["sx", "i1", "i2"], {}]}]}
     # a transformer asked twice
     yield {"kind": "list", "id": "c-l1", "n": 1, "api": "helper",
            "runs": [{"inst": [["i1"], {}], "call": [[], {}], "again": True}]}
@@ -769,25 +849,82 @@ def _h(case) -> str:
 
 
 def _sig_src(params):
+    """the parameter list as written: `/` after the last positional-only parameter, `*` before the first keyword-only
+    one unless a `*var` stands there, `*var` / `**var` for the variadics"""
     parts = []
-    for q in params:
-        s = q["name"]
+    kinds = [q.get("kind", "pk") for q in params]
+    for i, q in enumerate(params):
+        k = kinds[i]
+        if k == "ko" and "ko" not in kinds[:i] and "vp" not in kinds[:i]:
+            parts.append("*")
+        s = {"vp": "*", "vk": "**"}.get(k, "") + q["name"]
         if q.get("ann"):
             s += f": {q['ann']}"
-        if q.get("default") is not None:
+        if q.get("default") is not None and k not in ("vp", "vk"):
             s += (" = " if q.get("ann") else "=") + lit(q["default"])
         parts.append(s)
+        if k == "po" and (i + 1 == len(params) or kinds[i + 1] != "po"):
+            parts.append("/")
     return ", ".join(parts)
+
+
+def _indent(lines):
+    return ["    " + x for x in lines]
+
+
+def _wrap(lines, w):
+    """the statements `lines` put inside a compound statement (they are executed exactly once)"""
+    if w == "if":
+        return ["if len(" + repr("") + ") == 0:"] + _indent(lines)
+    if w == "else":
+        return ["if len(" + repr("") + ") > 0:", "    pass", "else:"] + _indent(lines)
+    if w == "elif":
+        return ["if len(" + repr("") + ") > 0:", "    pass", "elif True:"] + _indent(lines)
+    if w == "for":
+        return ["for _i in range(1):"] + _indent(lines)
+    if w == "while":
+        return ["while True:"] + _indent(lines) + ["    break"]
+    if w == "try":
+        return ["try:"] + _indent(lines) + ["finally:", "    pass"]
+    if w == "except":
+        return ["try:", "    raise KeyError(1)", "except KeyError:"] + _indent(lines)
+    if w == "tryelse":
+        return ["try:", "    pass", "except KeyError:", "    pass", "else:"] + _indent(lines)
+    if w == "with":
+        return ["with _nullctx():"] + _indent(lines)
+    raise ValueError(w)
+
+
+WRAPS = ["if", "else", "elif", "for", "while", "try", "except", "tryelse", "with"]
+
+#: statements put in front of the body that contain NO return of the function itself; the second entry says how many
+#: `return` statements python's ast shows inside them (in nested scopes)
+EXTRAS = {
+    "docstring": (['"""A docstring that says: return a, b."""'], 0),
+    "comment": (["# return nothing, this is a comment", "_c = 0  # return x"], 0),
+    "lambda": (["_g = lambda q: (q, q)"], 0),
+    "nested_noret": (["def _h0(q):", "    pass"], 0),
+    "nested_ret": (["def _h1(q):", "    return q"], 1),
+    "nested_ret_tuple": (["def _h2(q):", "    u = q", "    return u, q"], 1),
+    "nested_async": (["async def _co(q):", "    return q"], 1),
+    "nested_class": (["class _K:", "    def m(self):", "        return 1, 2"], 1),
+    "nested_decorated": (["@staticmethod", "def _s0():", "    return 0"], 1),
+    "nested_deep": (["if len(" + repr("") + ") == 0:", "    for _j in range(1):", "        def _h3(q):", "            return q"], 1),
+    "nested_two": (["def _h4(q):", "    if q:", "        return 1", "    return 2"], 2),
+}
 
 
 def fn_source(case, h):
     params, rets = case["params"], case["rets"]
     sig = _sig_src(params)
     ann = f" -> {case['ret_ann']}" if case.get("ret_ann") else ""
-    body = []
+    prelude = []
+    for x in case.get("extras") or []:
+        prelude += EXTRAS[x][0]
     for _spec, _text, pre in rets:
         if pre:
-            body.append(pre)
+            prelude.append(pre)
+    body = []
     if case["ret_style"] == "values":
         texts = [r[1] for r in rets]
         if case["single_tuple"]:
@@ -818,7 +955,13 @@ def fn_source(case, h):
         body.append("return")
     else:
         body.append("pass")
-    body_src = "\n".join("    " + b for b in body)
+    if case.get("nonascii"):
+        # a non-ASCII character in front of the return statement, on its line (columns in bytes != in characters)
+        k = next(i for i, b in enumerate(body) if b.startswith("return"))
+        body[k] = repr("\u00b5m") + "; " + body[k]
+    for w in reversed(case.get("wrap") or []):
+        body = _wrap(body, w)
+    body_src = "\n".join("    " + b for b in prelude + body)
     lines = []
     if case["future"]:
         lines.append("from __future__ import annotations")
@@ -828,6 +971,7 @@ def fn_source(case, h):
         "from pyiron_workflow.nodes.function import function_node, to_function_node",
         "from pwh.nodes_c17 import Term as _T",
         "from pwh.nodes_c17 import POOL as _P",
+        "from contextlib import nullcontext as _nullctx",
         "",
         f"def bare_{h}({sig}){ann}:",
         body_src,
@@ -931,8 +1075,58 @@ def _variant():
             by_name = 1 if "x" in T.dataclass_node_factory(mk([("y", int, 2)])).preview_inputs() else 0
         except Exception:  # noqa: BLE001
             by_name = 1
-        _VARIANT = [recast, cached, by_hash, by_name]
+        _VARIANT = [recast, cached, by_hash, by_name] + _probe_functions()
     return _VARIANT
+
+
+def _probe_functions():
+    """[walkNested, byteCols, variadicByName, posOnlyByKeyword]: how the tree reads four fixed function definitions"""
+    import importlib
+    import tempfile
+
+    from pyiron_workflow.nodes.function import function_node
+
+    src = (
+        "def c17probe_nested(x):\n    def _h(y):\n        return y\n    pass\n\n"
+        "def c17probe_bytes(x):\n    xy = x\n    " + repr("\u00b5") + "; return xy\n\n"
+        "def c17probe_var(a, *rest):\n    r = a\n    return r\n\n"
+        "def c17probe_po(a, /):\n    r = a\n    return r\n"
+    )
+    d = tempfile.mkdtemp(prefix="c17probe")
+    name = f"c17probe_{os.getpid()}"
+    with open(os.path.join(d, name + ".py"), "w", encoding="utf-8") as f:
+        f.write(src)
+    sys.path.insert(0, d)
+    try:
+        importlib.invalidate_caches()
+        mod = importlib.import_module(name)
+        try:
+            nested = 1 if function_node(mod.c17probe_nested).outputs.labels == ["y"] else 0
+        except Exception:  # noqa: BLE001
+            nested = 1
+        try:
+            bytecols = 0 if function_node(mod.c17probe_bytes).outputs.labels == ["xy"] else 1
+        except Exception:  # noqa: BLE001
+            bytecols = 1
+        try:
+            function_node(mod.c17probe_var)
+            var_by_name = 1
+        except ValueError:
+            var_by_name = 0
+        try:
+            n = function_node(mod.c17probe_po)
+            n.recovery = None
+            n(1)
+            po_by_kw = 0
+        except Exception:  # noqa: BLE001
+            po_by_kw = 1
+    finally:
+        sys.path.remove(d)
+        sys.modules.pop(name, None)
+        import shutil
+
+        shutil.rmtree(d, ignore_errors=True)
+    return [nested, bytecols, var_by_name, po_by_kw]
 
 
 _SETVAL_MARKERS = ("input channels available", "not found among available inputs", "n args are interpreted")
@@ -1031,6 +1225,7 @@ _DEF_MARKERS = [
     ("must either both or neither be", "presence"),
     ("Expected type hints and return labels to have matching", "hintCount"),
     ("non-default argument", "dataclass"),
+    ("encountered the variadic argument", "variadic"),
 ]
 
 
@@ -1041,7 +1236,7 @@ def _classify_def(e):
     return type(e).__name__
 
 
-def _reference(sig_params, a1, k1, a2, k2):
+def _reference(sig_params, a1, k1, a2, k2, plain=False):
     """Python's own binding of the two argument splits: {"status": 'refuse1'|'refuse2'|'missing'|'ok', "b1": what the
     construction binds, "explicit": the arguments that were passed at all (call over construction), in parameter order;
     parameters left out are NOT filled in here -- that is left to Python's own default mechanism when the bare
@@ -1049,9 +1244,12 @@ def _reference(sig_params, a1, k1, a2, k2):
     import inspect
 
     P = inspect.Parameter
+    KIND = {"po": P.POSITIONAL_ONLY, "pk": P.POSITIONAL_OR_KEYWORD, "ko": P.KEYWORD_ONLY, "vp": P.VAR_POSITIONAL,
+            "vk": P.VAR_KEYWORD}
+    sig_params = [(sp[0], sp[1], (sp[2] if len(sp) > 2 and not plain else "pk")) for sp in sig_params]
     sig = inspect.Signature([
-        P(name, P.POSITIONAL_OR_KEYWORD, **({} if dflt is inspect.Parameter.empty else {"default": dflt}))
-        for name, dflt in sig_params
+        P(name, KIND[kd], **({} if dflt is inspect.Parameter.empty else {"default": dflt}))
+        for name, dflt, kd in sig_params
     ], __validate_parameters__=False)
     try:
         b1 = sig.bind_partial(*a1, **k1).arguments
@@ -1063,7 +1261,7 @@ def _reference(sig_params, a1, k1, a2, k2):
         return {"status": "refuse2", "b1": dict(b1)}
     explicit = {}
     status = "ok"
-    for name, dflt in sig_params:
+    for name, dflt, _kd in sig_params:
         if name in b2:
             explicit[name] = b2[name]
         elif name in b1:
@@ -1126,9 +1324,22 @@ def _run(case, h, modname, variant):
             importlib.invalidate_caches()
             mod = importlib.import_module(modname)
             bare = getattr(mod, f"bare_{h}")
-            ref_params = [(q["name"], E if q["default"] is None else val(q["default"])) for q in case["params"]]
+            ref_params = [(q["name"], E if q["default"] is None else val(q["default"]), q.get("kind", "pk"))
+                          for q in case["params"]]
+            po_names = [q["name"] for q in case["params"] if q.get("kind") == "po"]
+
             # the BARE function called with the arguments that were passed, the rest left to Python's own defaults
-            ref_fn = lambda ex: bare(**ex)  # noqa: E731
+            # (positional-only ones positionally, as python demands)
+            def ref_fn(ex):
+                ex = dict(ex)
+                pos = []
+                for nm in po_names:
+                    if nm not in ex:
+                        break
+                    pos.append(ex.pop(nm))
+                if any(nm in ex for nm in po_names):
+                    return _NoDemand  # a positional-only value behind an omitted one cannot be written as a call
+                return bare(*pos, **ex)
             py_defaults = [pp.default for pp in inspect.signature(bare).parameters.values()]
             api = case["api"]
             if api == "to_fn":
@@ -1333,14 +1544,22 @@ def _run(case, h, modname, variant):
         status = ref["status"]
         rf["py"] = status
         rf["py_ret"] = None
-        names = [nm for nm, _d in ref_params]
+        if kind == "fn" and any(q.get("kind", "pk") != "pk" for q in case["params"]):
+            # the node's own binder knows no parameter kinds: what python would say were they all positional-or-keyword
+            rf["py_plain"] = _reference(ref_params, a1, k1, a2, k2, plain=True)["status"]
+        names = [sp[0] for sp in ref_params]
         if "b1" in ref:
             # what the input channels must hold once the node is built: the construction's value, else the default object
             rf["py_inst"] = [tok(ref["b1"][nm]) if nm in ref["b1"] else ("ND" if d is E else tok(d))
                              for nm, d in zip(names, py_defaults)]
         if status == "ok":
             ex = ref["explicit"]
-            exp = ref_fn(ex)
+            try:
+                exp = ref_fn(ex)
+            except TypeError:
+                if kind != "fn":
+                    raise
+                exp = _NoDemand  # (a definition with a variadic: outside what is demanded)
             rf["py_ret"] = None if exp is _NoDemand else tok(exp)
             if kind == "dc":
                 # "the dataclass built from the inputs": what the fields of Python's own instance hold
@@ -1439,6 +1658,17 @@ def _def_expect(case):
 
     if any(q["name"] in INIT_KW for q in case["params"]):
         return "any"
+    if any(q.get("kind") in ("vp", "vk") for q in case["params"]):
+        return "any"  # variadics are documented as unsupported: refusing them or not is not demanded
+    nested = sum(EXTRAS[x][1] for x in case.get("extras") or [])
+    if nested:
+        # `return` statements of functions / classes defined INSIDE the function are not the function's own. Demanded:
+        # a function without any return statement of its own has the single output None whatever its helpers return.
+        # Not demanded: that a function with a return of its own next to a helper's is accepted at all (the parser's
+        # documented limitation "a single return expression in the body" is read textually by the pinned code).
+        if case["ret_style"] == "none" and case["declared"] is None:
+            return "ok"
+        return "any"
     nvals = nvals_of(case)
     declared, validate = case["declared"], case["validate"]
     if case.get("layout") == "two_returns" and (validate or declared is None):
@@ -1458,8 +1688,8 @@ def _def_expect(case):
 def model_input(case, impl=None):
     if case["kind"] == "malformed":
         return list(case["lines"])
-    v = (impl or {}).get("variant") or [0, 0, 0, 0]
-    lines = [f"cfg {v[0]} {v[1]} {v[2]} {v[3]}"]
+    v = (impl or {}).get("variant") or [0] * 8
+    lines = ["cfg " + " ".join(str(x) for x in v)]
     kind = case["kind"]
     if kind == "fn":
         specs = [r[0] for r in case["rets"]] if case["ret_style"] == "values" else []
@@ -1468,13 +1698,11 @@ def model_input(case, impl=None):
         decl = ",".join(case["declared"]) if case["declared"] is not None else "-"
         lines.append(" ".join(["def", "fn", "1" if case["validate"] else "0", decl, *specs]))
         for q in case["params"]:
-            lines.append(f"param {q['name']} {q['default'] if q['default'] is not None else '-'} {ann_tok(q['ann'])}")
-        for st in ret_texts(case):
-            if st[0] == "tuple":
-                lines.append("retstmt tuple")
-                lines.extend(f"retelt {t}" for t in st[1])
-            else:
-                lines.append(" ".join(["retstmt", *st]))
+            lines.append(f"param {q['name']} {q['default'] if q['default'] is not None else '-'} {ann_tok(q['ann'])} "
+                         f"{q.get('kind', 'pk')}")
+        # the source of the function as PYTHON'S OWN `ast` reads it off the generated file: the source lines (as code
+        # points) and the statement tree of the body with the spans of the returned values
+        lines.extend(ast_lines(case))
         if case["ret_ann"] is not None:
             import typing
 
@@ -1520,6 +1748,56 @@ def model_input(case, impl=None):
     return lines
 
 
+def ast_lines(case):
+    """`srcline` / `stmt` lines for the model: the text of the node function as `inspect.getsource` cuts it out of the
+    generated file (decorators included, the function is at module level so `dedent` changes nothing), parsed by the real
+    `ast`; the conversion below is the only trusted step between the source file and the model's term"""
+    import ast
+
+    h = _h({k: v for k, v in case.items() if k != "runs"})
+    text = fn_source(case, h)
+    module = ast.parse(text)
+    fdef = next(n for n in module.body if isinstance(n, (ast.FunctionDef, ast.AsyncFunctionDef)) and n.name == f"F_{h}")
+    first = min([fdef.lineno] + [d.lineno for d in fdef.decorator_list])
+    snippet = "\n".join(text.split("\n")[first - 1: fdef.end_lineno]) + "\n"
+    tree = ast.parse(snippet)  # what ParseOutput parses
+    out = [("srcline " + (",".join(str(ord(ch)) for ch in ln) if ln else "-")) for ln in snippet.split("\n")[:-1]]
+
+    def span(e):
+        return f"{e.lineno} {e.col_offset} {e.end_lineno} {e.end_col_offset}"
+
+    def below(node):  # the statements directly below a statement (through except handlers and match cases)
+        for ch in ast.iter_child_nodes(node):
+            if isinstance(ch, ast.stmt):
+                yield ch
+            elif isinstance(ch, (ast.excepthandler, ast.match_case)):
+                yield from below(ch)
+
+    def walk(st, depth):
+        if isinstance(st, ast.Return):
+            if st.value is None:
+                out.append(f"stmt {depth} retbare")
+            elif isinstance(st.value, ast.Tuple):
+                out.append(" ".join([f"stmt {depth} rettuple", *[span(e) for e in st.value.elts]]))
+            else:
+                out.append(f"stmt {depth} retother {span(st.value)}")
+            return
+        kids = list(below(st))
+        if isinstance(st, (ast.FunctionDef, ast.AsyncFunctionDef, ast.ClassDef)):
+            out.append(f"stmt {depth} inner1")
+        elif kids:
+            out.append(f"stmt {depth} inner0")
+        else:
+            out.append(f"stmt {depth} leaf")
+            return
+        for k in kids:
+            walk(k, depth + 1)
+
+    for st in tree.body[0].body:
+        walk(st, 0)
+    return out
+
+
 def corr_view(case, impl):
     return impl["obs"]
 
@@ -1546,15 +1824,28 @@ def oracle(case, r):
             sfacts["prior_same_name"] = True
     if kind == "dict" and case.get("prior_spec") is not None:
         sfacts = {"prior_same_hash": True}
+    if kind == "fn":
+        if case.get("nonascii"):
+            sfacts["nonascii"] = True
+        if any(EXTRAS[x][1] for x in case.get("extras") or []) and case["ret_style"] == "none":
+            sfacts["nested_ret_only"] = True
+        if any(q.get("kind") == "po" for q in case["params"]):
+            sfacts["has_posonly"] = True
+
+    def defsig(f):  # a failure of the definition stage
+        f["signature"].update(sfacts)
+        f["signature"]["stage"] = "def"
+        return f
+
     # ---- the definition --------------------------------------------------------------------------
     expect = _def_expect(case)
     if F.get("def_error"):
         if expect in ("refuse", "any"):
             return []
-        return [_f(case, "def-error", f"a valid definition was refused: {F['def_error']}", **sfacts)]
+        return [defsig(_f(case, "def-error", f"a valid definition was refused: {F['def_error']}"))]
     if expect == "refuse":
-        return [_f(case, "def-accepted", f"{len(case['declared'])} labels declared for a function returning "
-                   f"{nvals_of(case)} values, validation on, but the class was created")]
+        return [defsig(_f(case, "def-accepted", f"{len(case['declared'])} labels declared for a function returning "
+                          f"{nvals_of(case)} values, validation on, but the class was created"))]
     # inputs: one per parameter, in order, with default and annotation (class-level preview)
     pi = F.get("preview_in") or {}
     if not pi.get("ok"):
@@ -1582,14 +1873,21 @@ def oracle(case, r):
             if fails:
                 break
     if fails:
-        return fails[:1]
+        return [defsig(fails[0])]
     # ---- the runs ------------------------------------------------------------------------------------
+    if kind == "fn" and any(q.get("kind") in ("vp", "vk") for q in case["params"]):
+        return []  # variadics are documented as unsupported: no demand on what such a node does
     consistent_labels = True
     if kind == "fn" and case["declared"] is not None:
         consistent_labels = len(case["declared"]) in (1, nvals_of(case)) and len(set(case["declared"])) == len(case["declared"])
     for i, (run, rf) in enumerate(zip(case["runs"], F.get("runs", []))):
         py = rf["py"]
         where = f"run #{i} inst={run['inst']} call={run['call']}"
+        if py in ("refuse1", "refuse2") and rf.get("py_plain") not in (None, py):
+            # python refuses the split only because of a parameter's KIND (a keyword-only value given positionally, a
+            # positional-only one by keyword); node arguments address input channels, by position or by label, and the
+            # statement does not ask the node to refuse what only the kind forbids
+            continue
         if py == "refuse1":
             if rf["inst"] == "ok":
                 fails.append(_f(case, "bad-split-accepted", f"{where}: Python's binder refuses the construction "
